@@ -202,7 +202,7 @@ def run_check(pid, reg, tier, seed, replay=None):
     gen_changed = []
     if P.get("gen"):
         from gen import regenerate
-        ok, gen_changed, glog = regenerate()
+        ok, gen_changed, glog = regenerate(P.get("gen"))
         if not ok: problems.append(("translator", glog[-1500:]))
 
     # 1. proof build
